@@ -326,3 +326,13 @@ def run(facts, rep, ctx):
     from . import round6
     round6.mm1(facts, rep)
     round6.tb4c(facts, rep)
+
+
+_run_before_round7 = run
+
+
+def run(facts, rep, ctx):
+    """rules added in the sixth seeding round (rules/round7.py)"""
+    _run_before_round7(facts, rep, ctx)
+    from . import round7
+    round7.ef4b(facts, rep)
